@@ -1,0 +1,23 @@
+//go:build verif
+
+// Verification hook (add-only, compiled only with -tags verif): exports the name reference
+// transformer constructor and the merged rule table. Nothing here changes behaviour.
+package accumulator
+
+import (
+	"sigs.k8s.io/kustomize/api/internal/plugins/builtinconfig"
+	"sigs.k8s.io/kustomize/api/resmap"
+)
+
+// VerifC03NameRefTransformer is newNameReferenceTransformer.
+func VerifC03NameRefTransformer(br []builtinconfig.NameBackReferences) resmap.Transformer {
+	return newNameReferenceTransformer(br)
+}
+
+// VerifC03BackRefs returns the merged name reference rules of the accumulator.
+func (ra *ResAccumulator) VerifC03BackRefs() []builtinconfig.NameBackReferences {
+	return ra.tConfig.NameReference
+}
+
+// VerifC03Live returns the accumulator's own ResMap (not a copy).
+func (ra *ResAccumulator) VerifC03Live() resmap.ResMap { return ra.resMap }
